@@ -118,6 +118,9 @@ class Model(Object):
         if getattr(self, "_solver", None) is not None and hasattr(self, "_tolerance"):
             # not all tolerances survive the serialization of the solver
             self.tolerance = self._tolerance
+            # neither do infinite bounds, which come back as the largest float
+            for reaction in getattr(self, "reactions", []):
+                reaction.update_variable_bounds()
 
     def __getstate__(self) -> Dict:
         """Get state for serialization.
@@ -495,6 +498,9 @@ class Model(Object):
             new._solver = copy(self.solver)  # pragma: no cover
         # not all tolerances survive the copy of the solver
         new.tolerance = self._tolerance
+        # neither do infinite bounds, which come back as the largest float
+        for reaction in new.reactions:
+            reaction.update_variable_bounds()
 
         # it doesn't make sense to retain the context of a copied model so
         # assign a new empty context
